@@ -24,25 +24,44 @@ namespace CaddyModel.C17
 /-- **Termination.**  The model of `Format` is a fold with no fuel: one `step` per input rune.
     Every inner loop of a step (`indent`, the `newLines` loop) performs a `write` per iteration,
     and the total number of writes is linear in the input — so every loop of every iteration
-    terminates; the nesting counter never exceeds its cap of 10 (formatter.go:235), which is
-    what bounds `indent`. -/
+    terminates; the nesting counter never exceeds its cap of 10 (formatter.go), which is
+    what bounds `indent`.  (`flushEnd` = the pending `{` written after the loop.) -/
 theorem fmt_total (x : List Rune) :
-    (run (trimSpace x)).rout.length ≤ 31 * x.length ∧ (run (trimSpace x)).nesting ≤ 10 := by
+    (flushEnd (run (trimSpace x))).rout.length ≤ 31 * x.length + 13 ∧ (run (trimSpace x)).nesting ≤ 10 := by
   have h := G_foldl (trimSpace x) (s := {}) (by decide)
   have hl := trimSpace_length_le x
   refine ⟨?_, h.2⟩
   have h1 := h.1
+  have h2 := (G_flushEnd (s := (trimSpace x).foldl step {}) h.2).1
   unfold run
   have h0 : ({} : FState).rout.length = 0 := rfl
   have : 31 * (trimSpace x).length ≤ 31 * x.length := Nat.mul_le_mul_left 31 hl
   omega
 
-/-- **No blow-up.**  `|Format x| ≤ 31·|x| + 1` (runes). -/
-theorem fmt_output_bound (x : List Rune) : (format x).length ≤ 31 * x.length + 1 := by
-  unfold format
-  have h1 := finish_length_le (run (trimSpace x)).rout
-  have h2 := (fmt_total x).1
+theorem formatCore_length_le (y : List Rune) : (formatCore y).length ≤ 31 * y.length + 14 := by
+  unfold formatCore
+  have h1 := finish_length_le (flushEnd (run (trimSpace y))).rout
+  have h2 := (fmt_total y).1
   omega
+
+/-- **No blow-up.**  `|Format x| ≤ 31·|x| + 14` (runes). -/
+theorem fmt_output_bound (x : List Rune) : (format x).length ≤ 31 * x.length + 14 := by
+  unfold format
+  split
+  · simp
+  · have hl := trimSpace_length_le x
+    split
+    · rename_i h
+      have := formatCore_length_le []
+      simp at this ⊢; omega
+    · rename_i c rest h
+      rw [h] at hl
+      simp only [List.length_cons] at hl
+      split
+      · have := formatCore_length_le rest
+        simp only [List.length_cons]; omega
+      · have := formatCore_length_le (c :: rest)
+        simp only [List.length_cons] at this; omega
 
 theorem dropWhile_head_not (p : Rune → Bool) : ∀ (l : List Rune) (c : Rune),
     (l.dropWhile p).head? = some c → p c = false
@@ -68,21 +87,46 @@ theorem dropWhile_getLast (p : Rune → Bool) : ∀ (l : List Rune),
       | cons b l => simp [List.getLast?_cons_cons]
     · rfl
 
-/-- **Shape of the result.**  `Format x` is a body without leading or trailing white space
-    followed by exactly one `'\n'`. -/
-theorem fmt_ends_with_single_newline (x : List Rune) :
-    ∃ body, format x = body ++ [rNL] ∧
+theorem formatCore_shape (y : List Rune) :
+    ∃ body, formatCore y = body ++ [rNL] ∧
       (∀ c, body.head? = some c → isSpace c = false) ∧
       (∀ c, body.getLast? = some c → isSpace c = false) := by
-  refine ⟨trimLeft (trimLeft (run (trimSpace x)).rout).reverse, rfl, ?_, ?_⟩
+  refine ⟨trimLeft (trimLeft (flushEnd (run (trimSpace y))).rout).reverse, rfl, ?_, ?_⟩
   · intro c h; exact dropWhile_head_not isSpace _ c h
   · intro c h
     unfold trimLeft at h
-    generalize (run (trimSpace x)).rout = r at h
+    generalize (flushEnd (run (trimSpace y))).rout = r at h
     by_cases hne : List.dropWhile isSpace (List.dropWhile isSpace r).reverse = []
     · rw [hne] at h; simp at h
     · rw [dropWhile_getLast isSpace _ hne, List.getLast?_reverse] at h
       exact dropWhile_head_not isSpace r c h
+
+/-- **Shape of the result.**  For a non-empty input `Format x` is a body without leading or
+    trailing white space (possibly starting with the byte order mark that was set aside)
+    followed by exactly one `'\n'`; the empty input stays empty. -/
+theorem fmt_ends_with_single_newline (x : List Rune) (hx : x ≠ []) :
+    ∃ body, format x = body ++ [rNL] ∧
+      (∀ c, body.head? = some c → isSpace c = false) ∧
+      (∀ c, body.getLast? = some c → isSpace c = false) := by
+  unfold format
+  have hne : x.isEmpty = false := by cases x <;> simp_all
+  rw [hne]
+  simp only [Bool.false_eq_true, ↓reduceIte]
+  split
+  · exact formatCore_shape []
+  · rename_i c rest h
+    split
+    · rename_i hc
+      obtain ⟨body, hb, h1, h2⟩ := formatCore_shape rest
+      refine ⟨rBOM :: body, by rw [hb]; rfl, ?_, ?_⟩
+      · intro d hd; simp at hd; subst hd; decide
+      · intro d hd
+        cases body with
+        | nil => simp at hd; subst hd; decide
+        | cons b bs => exact h2 d (by simpa [List.getLast?_cons_cons] using hd)
+    · exact formatCore_shape (c :: rest)
+
+theorem fmt_empty_stays_empty : format [] = [] := rfl
 
 /-! non-vacuity: a concrete, non-trivial run (nested blocks, re-indentation, blank-line squeezing) -/
 
@@ -97,7 +141,7 @@ example : (run (runes "a {\na {\na {\na {\na {\na {\na {\na {\na {\na {\na {\na 
 /-! ### meaning preservation and idempotence
 
 FULL STATEMENTS (both FALSE on the unchanged tree — `Witness.fmt_preserves_tokens_full_fails`,
-`Witness.fmt_idempotent_full_fails`, 43 classes of witnesses in `Witness.token_witnesses_all_fail`
+`Witness.fmt_idempotent_full_fails`, 22 classes of witnesses in `Witness.token_witnesses_all_fail`
 / `idem_witnesses_all_fail`):
 
     ∀ x, preservesTokens x = true        -- Tokenize (Format x) means what Tokenize x means
@@ -106,7 +150,7 @@ FULL STATEMENTS (both FALSE on the unchanged tree — `Witness.fmt_preserves_tok
 PROVED PART: both hold for every input in the fragment `W` (`inW`, Fragment.lean — an explicit
 DECIDABLE predicate on rune strings, no size bound): plain words, any non-CR white space /
 indentation / blank lines, arbitrarily nested `… {⏎ … ⏎}` blocks, comments (own line or after a
-word; any text without backtick / backslash / trailing blank).  NOT covered by these two
+word; any text without backslash / trailing blank).  NOT covered by these two
 theorems (only by the correspondence stream and the impl-side oracle): quoted / backquoted /
 heredoc tokens, placeholders `{x}`, line continuations, `#`/`"`/`<` inside words, CR, comments
 directly after a brace on the same line or directly before `{`.
@@ -143,6 +187,6 @@ example : inW (runes "# global\n\n\nexample.com {\n  # \"no\" <<tls> here\n  adm
 -- excluded, and indeed failing: one-line block, dangling brace, brace first on its line, CR inside a word
 set_option maxRecDepth 100000 in
 example : inW (runes "a { b }") = false ∧ inW (runes "a {") = false ∧ inW (runes "a\n{\n}") = false ∧
-    inW (runes "a\rb") = false ∧ inW (runes "# `\n{\n}") = false ∧ inW (runes "a # \\\n}") = false := by decide
+    inW (runes "a\rb") = false ∧ inW (runes "# c\n{\n}") = false ∧ inW (runes "a # \\\n}") = false := by decide
 
 end CaddyModel.C17
